@@ -198,6 +198,7 @@ int main(int argc, char** argv){
     double s1 = std::sin(12.9898 * (k + 1) + shape), s2 = std::sin(78.233 * (k + 1) + 2 * shape), s3 = std::sin(37.719 * (k + 1) + 3 * shape);
     pos[3*k] = 1.4 * pos[3*k] + 0.08 * s1 + 3.1; pos[3*k+1] = 0.9 * pos[3*k+1] + 0.08 * s2 - 2.3; pos[3*k+2] = 1.1 * pos[3*k+2] + 0.08 * s3 + 1.7;
   }
+  if(shape >= 4){ for(size_t k = 0; k < pos.size() / 3; k++){ double z = pos[3*k+2] - 1.7; if(z > 0.35) pos[3*k+2] = 1.7 + 0.7 - z; } }      // a dimple: concave hinges
   auto c = std::make_shared<epithelial_cell>(pos, faces, 0, ct); c->initialize_cell_properties(true);
   for(node& n: c->node_lst_) n.force_ = vec3(0, 0, 0);
   if(what == "bending") c->apply_bending_forces(); else c->regularize_all_face_angles();
@@ -210,13 +211,13 @@ int main(int argc, char** argv){
   printf("OK\n"); return 0;
 }
 '''
-SUM_CASES = [('bending', '0'), ('bending', '1'), ('angles', '0'), ('angles', '1'), ('bending', '2'), ('bending', '3'), ('angles', '2'), ('angles', '3')]
+SUM_CASES = [('bending', '0'), ('bending', '1'), ('bending', '5'), ('angles', '0'), ('angles', '5'), ('bending', '2'), ('bending', '3'), ('bending', '4'), ('bending', '7'), ('angles', '2'), ('angles', '3'), ('angles', '4')]
 
 
 def extra_checks(run):
     import native, json, os
     out = []
-    for what, shape in (SUM_CASES if run.tier == 'thorough' else SUM_CASES[:4]):
+    for what, shape in (SUM_CASES if run.tier == 'thorough' else SUM_CASES[:5]):
         code, txt = native.run_driver(SUM_DRIVER, [what, shape], timeout=600)
         name = 'C02/bounded/net-force-and-torque-of-the-%s-forces[shape=%s]' % (what, shape)
         rec = {'name': name, 'bound': 'one perturbed, anisotropically scaled icosphere (id %s) away from the origin; the real cell::%s applied alone; IEEE doubles, tolerance 1e-9 relative to the largest nodal force' % (shape, 'apply_bending_forces' if what == 'bending' else 'regularize_all_face_angles'),
